@@ -387,8 +387,9 @@ theorem marshalValIdx_injective (c : Codec α) (hinj : ∀ v x y, c.enc v x = c.
 
 theorem unmarshalAtt_marshal_idx (c : Codec α) (h : ∀ v x, c.dec v (c.enc v x) = .ok x)
     (ver : Ver) (i : Nat) (val : α) (hi : i < 2 ^ 64) :
-    unmarshalAtt c (marshalAtt c ⟨ver, some i, val⟩) = .ok ⟨ver, some i, val⟩ := by
-  simp [unmarshalAtt, marshalAtt, unmarshalValIdx_marshal c h ⟨ver, i, val⟩ hi]
+    ∀ strict, unmarshalAttG strict c (marshalAtt c ⟨ver, some i, val⟩) = .ok ⟨ver, some i, val⟩ := by
+  intro strict
+  simp [unmarshalAttG, marshalAtt, unmarshalValIdx_marshal c h ⟨ver, i, val⟩ hi]
 
 /-- What the first attempt (`unmarshalSSZVersionedValidatorIdx`) sees of an encoding written
 WITHOUT validator index: bytes 16..20 of the buffer are bytes 4..8 of the inner object. -/
@@ -411,22 +412,24 @@ this) — only under the hypothesis that bytes 4..8 of the inner object do not r
 theorem unmarshalAtt_marshal_noidx_partial (c : Codec α) (h : ∀ v x, c.dec v (c.enc v x) = .ok x)
     (ver : Ver) (val : α) (h8 : 8 ≤ (c.enc ver val).length)
     (hne : leVal (slice (c.enc ver val) 4 8) ≠ 20) :
-    unmarshalAtt c (marshalAtt c ⟨ver, none, val⟩) = .ok ⟨ver, none, val⟩ := by
+    ∀ strict, unmarshalAttG strict c (marshalAtt c ⟨ver, none, val⟩) = .ok ⟨ver, none, val⟩ := by
+  intro strict
   obtain ⟨s1, s2, s3⟩ := noidx_slice c ver val h8
   have hfirst : unmarshalValIdx c (marshalVersioned c ⟨ver, val⟩) = .error .offset := by
     apply unmarshalValIdx_bad_offset c s3
     · rw [s2, leVal_ver]; exact Ver.toNat_lt ver
     · rw [s1]; exact hne
-  simp [unmarshalAtt, marshalAtt, hfirst, WErr.isOffset, unmarshalVersioned_marshal c h ⟨ver, val⟩]
+  simp [unmarshalAttG, marshalAtt, hfirst, WErr.isOffset, unmarshalVersioned_marshal c h ⟨ver, val⟩]
 
 /-- Same round trip when bytes 4..8 DO read as 20 but the inner decoder happens to fail with an
 error wrapping `ssz.ErrOffset` on the shifted bytes: the fallback still rescues it. -/
 theorem unmarshalAtt_marshal_noidx_rescued (c : Codec α) (h : ∀ v x, c.dec v (c.enc v x) = .ok x)
     (ver : Ver) (val : α) (h8 : 8 ≤ (c.enc ver val).length)
     (hoff : c.dec ver ((c.enc ver val).drop 8) = .error .offset) :
-    unmarshalAtt c (marshalAtt c ⟨ver, none, val⟩) = .ok ⟨ver, none, val⟩ := by
+    ∀ strict, unmarshalAttG strict c (marshalAtt c ⟨ver, none, val⟩) = .ok ⟨ver, none, val⟩ := by
+  intro strict
   by_cases hne : leVal (slice (c.enc ver val) 4 8) ≠ 20
-  · exact unmarshalAtt_marshal_noidx_partial c h ver val h8 hne
+  · exact unmarshalAtt_marshal_noidx_partial c h ver val h8 hne strict
   · have he : leVal (slice (c.enc ver val) 4 8) = 20 := by simpa using hne
     obtain ⟨s1, s2, s3⟩ := noidx_slice c ver val h8
     have hdrop : (marshalVersioned c ⟨ver, val⟩).drop 20 = (c.enc ver val).drop 8 := by
@@ -440,7 +443,7 @@ theorem unmarshalAtt_marshal_noidx_rescued (c : Codec α) (h : ∀ v x, c.dec v 
       unfold unmarshalValIdx
       simp only [valIdxOff_eq, hl, if_false, s2, leVal_ver, Ver.ofNat?_toNat, s1, he]
       simp [hdrop, hoff]
-    simp [unmarshalAtt, marshalAtt, hfirst, WErr.isOffset, unmarshalVersioned_marshal c h ⟨ver, val⟩]
+    simp [unmarshalAttG, marshalAtt, hfirst, WErr.isOffset, unmarshalVersioned_marshal c h ⟨ver, val⟩]
 
 /-- Witness codec: an inner object whose bytes 4..8 read 20 (an attestation for slot 20), a
 decoder that is a perfect inverse of the encoder. -/
@@ -450,11 +453,52 @@ def slot20Codec : Codec Unit :=
 theorem slot20Codec_roundtrip : ∀ v x, slot20Codec.dec v (slot20Codec.enc v x) = .ok x := by
   intro v x; rfl
 
-/-- The full statement is FALSE for the code as it is: with a perfectly invertible inner codec,
+/-- PRE-FIX variant (before repo commit 2a43df9, D-15): with a perfectly invertible inner codec,
 the index-less encoding of a value whose inner bytes 4..8 read 20 is rejected. -/
-theorem unmarshalAtt_marshal_noidx_fails :
-    unmarshalAtt slot20Codec (marshalAtt slot20Codec ⟨.deneb, none, ()⟩) = .error (.idx (.inner .other)) := by
+theorem unmarshalAttPrefix_marshal_noidx_fails :
+    unmarshalAttPrefix slot20Codec (marshalAtt slot20Codec ⟨.deneb, none, ()⟩) = .error (.idx (.inner .other)) := by
   rfl
+
+/-- … and the code as it is now decodes that witness. -/
+theorem unmarshalAtt_marshal_noidx_witness :
+    unmarshalAtt slot20Codec (marshalAtt slot20Codec ⟨.deneb, none, ()⟩) = .ok ⟨.deneb, none, ()⟩ := by
+  rfl
+
+theorem marshalVersioned_drop20 (c : Codec α) (ver : Ver) (val : α) :
+    (marshalVersioned c ⟨ver, val⟩).drop 20 = (c.enc ver val).drop 8 := by
+  rw [marshalVersioned_eq]
+  have e1 := drop_app (le 8 ver.toNat) (le 4 12 ++ c.enc ver val) 12
+  have e2 := drop_app (le 4 12) (c.enc ver val) 8
+  simp only [le_length] at e1 e2
+  exact e1.trans e2
+
+/-- Round trip of an index-less attestation for the code as it is now: whatever the slot. The one
+remaining hypothesis is about the INNER codec and is intrinsic to the wire format (the two forms
+overlap, `marshalAtt_ambiguous`): if inner bytes 4..8 read 20, the inner decoder must not ACCEPT the
+inner object shifted by 8 bytes (for go-eth2-client attestations the shifted object starts with the
+high half of the slot where the offset word 228 / 236 is required). -/
+theorem unmarshalAtt_marshal_noidx (c : Codec α) (h : ∀ v x, c.dec v (c.enc v x) = .ok x)
+    (ver : Ver) (val : α)
+    (hshift : leVal (slice (c.enc ver val) 4 8) = 20 → ∃ e, c.dec ver ((c.enc ver val).drop 8) = .error e) :
+    unmarshalAtt c (marshalAtt c ⟨ver, none, val⟩) = .ok ⟨ver, none, val⟩ := by
+  cases hfirst : unmarshalValIdx c (marshalVersioned c ⟨ver, val⟩) with
+  | error e =>
+    simp [unmarshalAtt, unmarshalAttG, marshalAtt, hfirst, unmarshalVersioned_marshal c h ⟨ver, val⟩]
+  | ok r =>
+    exfalso
+    obtain ⟨hl, _, _, h20, hdec⟩ := unmarshalValIdx_ok c hfirst
+    have hlen : (marshalVersioned c ⟨ver, val⟩).length = 12 + (c.enc ver val).length := by
+      rw [marshalVersioned_eq]; simp [le_length]; omega
+    have h8 : 8 ≤ (c.enc ver val).length := by omega
+    obtain ⟨s1, s2, _⟩ := noidx_slice c ver val h8
+    have hv : r.ver = ver := by
+      obtain ⟨_, hv, _⟩ := unmarshalValIdx_ok c hfirst
+      rw [s2, leVal_ver] at hv
+      exact Ver.toNat_inj hv
+    rw [s1] at h20
+    obtain ⟨e, he⟩ := hshift h20
+    rw [marshalVersioned_drop20, hv, he] at hdec
+    cases hdec
 
 /-- hypothesis under which an index-less value cannot be confused with an indexed one -/
 def NoIdxSafe (c : Codec α) (x : VA α) : Prop :=
